@@ -49,7 +49,8 @@ where
     T: Flat + ?Sized,
     L: Flat + Length,
 {
-    const OFFSET_SIZE: usize = max(L::SIZE, T::ALIGN);
+    // The payload follows the offset slot and must stay aligned for `T`.
+    const OFFSET_SIZE: usize = ceil_mul(L::SIZE, T::ALIGN);
 
     pub fn len(&self) -> usize {
         self.bytes_iter().map(Result::unwrap).count()
